@@ -9,7 +9,7 @@ from vf.spec import cdb as S
 ID = "C02"
 LEVEL = "exploration"
 TECHNIQUE = "deviation-bounded exhaustive enumeration of joint field assignments and of library-built CDBs; marshall_cdb/unmarshall_cdb compared with an independent spec codec in both directions"
-RULE = ("per class: (a) joint assignments to all CDB fields at once (opcode and service action included), every assignment deviating "
+RULE = ("per class: (a) joint assignments to all CDB fields at once (service action included; the operation code over all codes of the class's CDB-length group), every assignment deviating "
         "from the all-zero and from the all-ones baseline in at most k fields (k=2 quick, 3 thorough), each deviating field over its whole "
         "alphabet; the spec encoder turns the assignment into bytes, then unmarshall_cdb(bytes) must equal the assignment, "
         "marshall_cdb(assignment) and marshall_cdb(unmarshall_cdb(bytes)) must equal the bytes, and relative to the baseline only the "
@@ -37,6 +37,12 @@ def lib_fields(name):
 
 def partitions(tier):
     return [[n] for n in S.CLASSES]
+
+
+def base_of(name, basekind):
+    base = {f: (0 if basekind == "zeros" else (1 << w) - 1) for (f, b, msb, w) in lib_fields(name)}
+    base["opcode"] = S.CLASSES[name]["op"]
+    return base
 
 
 def spec_bytes(name, vals):
@@ -89,8 +95,7 @@ def run_case(case):
     cls, inst, op = fresh_instance(name)
     if mode == "assign":
         _, _, basekind, devs = case
-        flds = lib_fields(name)
-        base = {f: (0 if basekind == "zeros" else (1 << w) - 1) for (f, b, msb, w) in flds}
+        base = base_of(name, basekind)
         vals = dict(base)
         vals.update(devs)
         return check_assignment(name, cls, vals, base, tuple(devs))
@@ -139,8 +144,13 @@ def run_partition(part, tier, seed):
     cls, inst, op = fresh_instance(name)
     flds = lib_fields(name)
     alph = {f: bits.alphabet(w) for (f, _, _, w) in flds}
+    # the operation code ranges over the codes of the class's own CDB-length group (a code of another group is
+    # another command with another length, not an in-range value of this command's field)
+    from vf.spec import opcodes as T
+    ln = S.CLASSES[name]["length"]
+    alph["opcode"] = [v for v in range(256) if T.cdb_length(v) == ln]
     for basekind in ("zeros", "ones"):
-        base = {f: (0 if basekind == "zeros" else (1 << w) - 1) for (f, _, _, w) in flds}
+        base = base_of(name, basekind)
         for r in range(0, b["k"] + 1):
             for combo in itertools.combinations([f[0] for f in flds], r):
                 for values in itertools.product(*[[v for v in alph[f] if v != base[f]] for f in combo]):
